@@ -135,8 +135,18 @@ def gen_ops(rng, model, items, route):
         continue
       ops.append({"op": "override", "section": s, "key": ws_variant(rng, k), "value": new_value(rng, s, k, model, v)})
       touched.add((s, norm(k)))
-      if rng.random() < 0.15:   # repeated override of one key: the later one wins
+      if rng.random() < 0.2:   # repeated override of one key: the later one wins
         ops.append({"op": "override", "section": s, "key": ws_variant(rng, k), "value": new_value(rng, s, k, model, v)})
+        if rng.random() < 0.6:
+          # ... also when the spellings alternate (A, B, A: the third is the last on the command line), possibly
+          # with another item's override in between
+          if rng.random() < 0.4 and flat:
+            s3, k3, v3 = rng.choice(flat)
+            if (s3, norm(k3)) not in touched and not s3.startswith("Table-Form"):
+              ops.append({"op": "override", "section": s3, "key": k3, "value": new_value(rng, s3, k3, model, v3)})
+              touched.add((s3, norm(k3)))
+          first = [o for o in ops if o["op"] == "override" and o["section"] == s and norm(o["key"]) == norm(k)][0]
+          ops.append({"op": "override", "section": s, "key": first["key"], "value": new_value(rng, s, k, model, v)})
     elif c < 0.65 and flat:
       s, k, v = rng.choice(flat)
       if s.startswith("Table-Form") and route != "api":
@@ -155,6 +165,10 @@ def gen_ops(rng, model, items, route):
           continue
         ops.append({"op": "add", "section": sec, "key": ws_variant(rng, key), "value": "as.constant %s" % spec.fnum(spec.rfloat(rng, -2, 2))})
         touched.add((sec, key))
+        if rng.random() < 0.25:
+          # the same new item added twice in one invocation (other spelling / reversed): the second one "already exists"
+          k2 = rng.choice([key, key.replace("-", " - "), key.replace("-", "- "), "%s-%s" % (b, a)])
+          ops.append({"op": "add", "section": sec, "key": k2, "value": "as.constant %s" % spec.fnum(spec.rfloat(rng, 3, 5))})
       elif which == "tab":
         have = [norm(k) for s, k, v in flat if s == "Tabulation"]
         cand = [x for x in ("dr", "nrho", "cutoff_rho", "drho") if x not in have and ("Tabulation", x) not in touched]
@@ -198,6 +212,18 @@ def gen_cases(rng, tier):
     m = gen_model(rng, i)
     route = "cli" if i % 16 == 5 else rng.choice(["main", "main", "api"])
     ops = gen_ops(rng, m, emit.model_items(m), route)
+    if i % 19 == 7:
+      # one item overridden three times with alternating spellings of its key (and nothing else that could fail)
+      route = rng.choice(["main", "main", "cli", "api"])
+      items0 = emit.model_items(m)
+      cand = [(s_, k_) for s_, its in items0 for k_, v_ in its if s_ in ("Pair", "EAM-Density", "EAM-Embed") and ("-" in k_)]
+      if cand:
+        s_, k_ = rng.choice(cand)
+        alt = k_.replace("-", rng.choice([" -", "- ", " - "]), 1).replace("- >", "->")
+        if "->" in k_:
+          alt = k_.replace("->", rng.choice([" ->", "-> ", " -> "]))
+        a, b = (k_, alt) if rng.random() < 0.5 else (alt, k_)
+        ops = [{"op": "override", "section": s_, "key": kk, "value": "as.constant %s" % spec.fnum(spec.rfloat(rng, 0.5, 9.0))} for kk in (a, b, a)]
     case = {"model": m, "ops": ops, "route": route, "listing": (i % 2 == 1 and route != "api")}
     if route == "main" and i % 5 == 2:
       # feature interaction: the same invocation also filters species and the file uses [Variables] placeholders
